@@ -931,6 +931,8 @@ func (ro *RedisOutput) sendCmdsBatch(replayWait usync.WaitCloser, conn client.Re
 		delayNs    int64
 	}
 	var pipeline chan *cmdBatcher
+	// set when a pipelined batch failed: lastOffset then covers commands the target did not execute
+	var pipelineFailed atomic.Bool
 
 	if isPipeline {
 		pipeline = make(chan *cmdBatcher, 2)
@@ -944,6 +946,7 @@ func (ro *RedisOutput) sendCmdsBatch(replayWait usync.WaitCloser, conn client.Re
 			}
 			failCounter.Add(float64(bat.cmdCounter), ro.cfg.InputName)
 			batchSendCounter.Add(1, ro.cfg.InputName, transactionLabel, "error")
+			pipelineFailed.Store(true)
 			replayWait.Close(err)
 		}
 
@@ -1192,6 +1195,10 @@ func (ro *RedisOutput) sendCmdsBatch(replayWait usync.WaitCloser, conn client.Re
 				shouldUpdateCP = true
 			}
 		case <-replayWait.Done():
+			if pipelineFailed.Load() {
+				// no final flush: its checkpoint would cover the failed batch
+				return nil
+			}
 			if !inTransaction && !transactionBatch {
 				needFlush = true
 				shouldUpdateCP = true
